@@ -367,6 +367,45 @@ def check_c07(ctx):
                               f"schedule of cost {found} exists",
                       "trace": {"cls": t["cls"], "p": t["p"], "N": t["N"], "passes": 1,
                                 "instance": insts[idx - 1]}})
+    # link 2 for C07: the published recurrences (HierTables.tla) on the whole order box, and on the
+    # optima of the exhaustive search (which validate the transcription itself)
+    hcfgs, hidx, hclaims, howner = [], {}, [], []
+
+    def cfg_of(p):
+        key = (p["ram"], p["uf"], p["wd"], p["rd"])
+        if key not in hidx:
+            hcfgs.append({"cm": p["ram"], "uf": p["uf"], "wd": p["wd"], "rd": p["rd"], "cmax": 6})
+            hidx[key] = len(hcfgs)
+        return hidx[key]
+    kind_of = {"Revolve": "rev", "DiskRevolve": "dsk", "HRevolve": "hrev"}
+    for t, oc in zip(order_owner, order_claims):
+        if t["cls"] in kind_of:
+            hclaims.append({"kind": kind_of[t["cls"]], "cfg": cfg_of(t["p"]), "n": oc["n"],
+                            "c": max(oc["cd"], 0), "v": oc["cost"]})
+            howner.append(t)
+    for idx, (inst, t) in enumerate(zip(insts, owner), start=1):
+        hclaims.append({"kind": "opt" + kind_of[t["cls"]], "cfg": cfg_of(t["p"]), "n": inst["n"],
+                        "c": max(inst["cd"], 0) if t["cls"] == "HRevolve" else 0,
+                        "v": best.get(idx, inst["claim"])})
+        howner.append(None)
+    hpath = os.path.join(ctx.dir, "hier.json")
+    json.dump({"cfgs": hcfgs, "claims": hclaims}, open(hpath, "w"))
+    hr = tlc.run("HierTables", env={"CLAIMS_FILE": hpath, "OPT_NMAX": str(big_n)}, timeout=1800, workers=1)
+    ctx.add_run("HierTables", hr)
+    if tlc.invariant_violated(hr) or not hr["ok"]:
+        raise fw.Machinery(f"HierTables failed: {tlc.invariant_violated(hr)} {hr['error']}")
+    hm = tlc.marked(hr)
+    if not hm:
+        raise fw.Machinery("HierTables printed no verdict")
+    for x in hm[0][0]:
+        cl, t = hclaims[x - 1], howner[x - 1]
+        if t is None:
+            raise fw.Machinery(f"HierTables disagrees with the exhaustive optimum at {cl} "
+                               f"({hcfgs[cl['cfg'] - 1]}): the transcription of the recurrence is wrong")
+        viols.append({"property": "C07", "clause": "C07.recurrence", "cls": t["cls"], "p": t["p"], "N": t["N"],
+                      "what": f"{fw.describe(t)}: cost {cl['v']} (without ub*n) differs from the published "
+                              f"recurrence",
+                      "trace": {"cls": t["cls"], "p": t["p"], "N": t["N"], "passes": 1}})
     path = os.path.join(ctx.dir, "order.json")
     json.dump(order_claims, open(path, "w"))
     r = tlc.run("CostOrder", env={"CLAIMS_FILE": path}, timeout=1200)
@@ -389,6 +428,7 @@ def check_c07(ctx):
                       f"DiskRevolve (one read, unbounded disk) n<={dn} cm<=2; Revolve n<={rn} cm<=3; "
                       f"{len(costs)} integer cost vectors incl. uf!=ub, wd!=rd",
         "order_claims": len(order_claims), "order_box": f"n <= {big_n}",
+        "recurrence_claims": len(hclaims), "recurrence_configurations": len(hcfgs),
         "search_space_soundness": ref,
         "streams_skipped_not_executable": skipped,
         "cost_vectors": [list(c) for c in costs],
@@ -400,4 +440,6 @@ def check_c07(ctx):
     }
     return viols, cov, ["the search space is the operation model of Revolve / Disk-Revolve / H-Revolve "
                         "(no direct transfer between RAM and DISK)",
-                        "beyond the searched box only the order relations between siblings are checked"]
+                        "beyond the searched box: the recurrences of Aupy et al. (2016) and Herrmann & Pallez (2020) "
+                        "as transcribed in HierTables.tla (checked against the exhaustive optimum inside the box), "
+                        "and the order relations between siblings"]
